@@ -629,3 +629,72 @@ pub fn pos_from_src(corpus: &[String], seed: u64, src: u64) -> Option<Pos> {
         shadow_at(&spec, (src & 1023) as usize)
     }
 }
+
+/// A position built around a pin: own king, own piece X on a line with it, enemy slider behind X
+/// on the same line, plus a few random pieces (capture targets, blockers, second attackers).
+/// For diagonal pins of a rook or queen, sometimes an enemy bishop/queen is put on the mirrored
+/// square of the king's other diagonal, shielded from the king by a blocker.
+pub fn pin_scenario(rng: &mut Rng) -> Option<Pos> {
+    let white = rng.chance(1, 2);
+    let k = rng.below(64) as u8;
+    let dirs: [(i8, i8); 8] = [(1, 0), (-1, 0), (0, 1), (0, -1), (1, 1), (1, -1), (-1, 1), (-1, -1)];
+    let (dx, dy) = dirs[rng.below(8)];
+    let (kf, kr) = (o::file_of(k), o::rank_of(k));
+    let mut line = vec![];
+    let (mut f, mut r) = (kf + dx, kr + dy);
+    while o::on_board(f, r) {
+        line.push(o::sq(f, r));
+        f += dx;
+        r += dy;
+    }
+    if line.len() < 2 {
+        return None;
+    }
+    let d1 = rng.below(line.len() - 1);
+    let d2 = d1 + 1 + rng.below(line.len() - 1 - d1);
+    let xk = [o::QUEEN, o::ROOK, o::BISHOP, o::KNIGHT, o::PAWN, o::ROOK, o::QUEEN][rng.below(7)];
+    let diagonal = dx != 0 && dy != 0;
+    let sk = if rng.chance(1, 3) { o::QUEEN } else if diagonal { o::BISHOP } else { o::ROOK };
+    let mut p = Pos::empty();
+    p.white_to_move = white;
+    p.b[k as usize] = o::mk(o::KING, white);
+    p.b[line[d1] as usize] = o::mk(xk, white);
+    p.b[line[d2] as usize] = o::mk(sk, !white);
+    if diagonal && (xk == o::ROOK || xk == o::QUEEN) && rng.chance(1, 2) {
+        // mirrored square of the other diagonal through the king, same distance
+        let (mx, my) = if rng.chance(1, 2) { (dx, -dy) } else { (-dx, dy) };
+        let dist = d1 as i8 + 1;
+        let (tf, tr) = (kf + mx * dist, kr + my * dist);
+        if o::on_board(tf, tr) && p.b[o::sq(tf, tr) as usize] == o::EMPTY {
+            p.b[o::sq(tf, tr) as usize] = o::mk(if rng.chance(1, 2) { o::BISHOP } else { o::QUEEN }, !white);
+            if dist >= 2 {
+                let j = 1 + rng.below(dist as usize - 1) as i8;
+                let b = o::sq(kf + mx * j, kr + my * j) as usize;
+                if p.b[b] == o::EMPTY {
+                    let bk = [o::PAWN, o::KNIGHT, o::PAWN, o::BISHOP][rng.below(4)];
+                    p.b[b] = o::mk(bk, rng.chance(1, 2));
+                }
+            }
+        }
+    }
+    // enemy king and extras
+    for _ in 0..20 {
+        let s = rng.below(64);
+        if p.b[s] == o::EMPTY {
+            p.b[s] = o::mk(o::KING, !white);
+            break;
+        }
+    }
+    for _ in 0..rng.below(5) {
+        let s = rng.below(64);
+        if p.b[s] == o::EMPTY {
+            let t = [o::PAWN, o::PAWN, o::KNIGHT, o::BISHOP, o::ROOK, o::QUEEN][rng.below(6)];
+            p.b[s] = o::mk(t, rng.chance(1, 2));
+        }
+    }
+    if p.is_sane() {
+        Some(p)
+    } else {
+        None
+    }
+}
